@@ -170,8 +170,7 @@ Fixpoint column_names (cs : list cell) : option (list str) :=
 Definition mem_str (s : str) (l : list str) : bool := existsb (str_eqb s) l.
 
 (* f"{column_name}_fixed_{sq:03}" *)
-Definition pad3 (n : N) : str :=
-  if n <? 10 then 48 :: 48 :: dec n else if n <? 100 then 48 :: dec n else dec n.
+Definition pad3 (n : N) : str := [48 + n / 100; 48 + (n / 10) mod 10; 48 + n mod 10].  (* n < 1000 *)
 Definition s_fixed : str := [95; 102; 105; 120; 101; 100; 95].
 Definition fixed_name (c : str) (sq : N) : str := c ++ s_fixed ++ pad3 sq.
 (* the literal returned when all 1000 candidates are taken (a missing f-prefix in the source) *)
